@@ -77,6 +77,7 @@ pub fn run(kind: &str, args: &[String]) -> i32 {
     match kind {
         "syntax" => syntax(&mut sink, &opts),
         "stream" => stream(&mut sink, &opts),
+        "meta" => meta(&mut sink, &opts),
         _ => {
             eprintln!("unknown trace kind {kind}");
             return 2;
@@ -214,5 +215,54 @@ fn stream(sink: &mut Sink, o: &Opts) {
             splits.dedup();
             sink.emit(stream_event(&v, &splits));
         }
+    }
+}
+
+/// the abstraction of an item the metadata folds look at
+fn abstract_item(r: &Result<ProguardRecord<'_>, proguard::ParseError<'_>>) -> Value {
+    let t = |t: &str| json!({"t": t, "key": [], "value": []});
+    match r {
+        Err(_) => t("e"),
+        Ok(ProguardRecord::Class { .. }) => t("c"),
+        Ok(ProguardRecord::Field { .. }) => t("f"),
+        Ok(ProguardRecord::Method { line_mapping, .. }) => t(if line_mapping.is_some() { "m1" } else { "m0" }),
+        Ok(ProguardRecord::Header { key, value }) => json!({"t": "h", "key": enc::s(key), "value": enc::opt_s(*value)}),
+    }
+}
+
+fn meta_event(sink: &mut Sink, src: &[u8]) {
+    let items: Vec<Value> = ProguardMapping::new(src).iter().map(|r| abstract_item(&r)).collect();
+    let src2 = src.to_vec();
+    let got = guarded(move || crate::replay::meta_answers(&src2)).unwrap_or_else(|p| json!({"panic": p}));
+    sink.emit(json!({"items": items, "got": got, "len": src.len()}));
+}
+
+/// C19: metadata answers with the item stream they must be a fold of
+fn meta(sink: &mut Sink, o: &Opts) {
+    let mut rng = Rng::new(o.seed);
+    for f in &o.files {
+        let src = std::fs::read(f).expect("corpus file");
+        meta_event(sink, &src);
+    }
+    for _ in 0..o.n {
+        let mut src = vec![];
+        // leading noise of 0..60 items so that the 50-item window is crossed
+        if rng.chance(1, 2) {
+            for _ in 0..rng.range(40, 60) {
+                src.extend_from_slice(rng.pick(&[&b"noise line\n"[..], b"# a: b\n", b"    int f -> g\n", b"# min_api: 3\n"]));
+            }
+        }
+        src.extend_from_slice(&gen::mapping(&mut rng, &gen::MapCfg { max_classes: 3, max_members: 4, wild: true, noise: true }));
+        if rng.chance(1, 3) {
+            // many unmapped methods, then evidence at the very end, without final newline
+            for _ in 0..rng.range(100, 1500) {
+                src.extend_from_slice(b"    void a() -> b\n");
+            }
+            src.extend_from_slice(rng.pick(&[&b"    1:1:void a() -> b"[..], b"    0:1:void a() -> b", b"# compiler: X\n# min_api: +9", b"bad"]));
+        }
+        if rng.chance(1, 4) {
+            src = gen::mutate_file(&mut rng, &src);
+        }
+        meta_event(sink, &src);
     }
 }
